@@ -271,6 +271,12 @@ impl Process {
     #[instrument()]
     pub fn do_action(self: &Arc<Self>, action: &Action) -> Result<()> {
         let mut action = action.clone();
+        if self.state().is_completed() {
+            return Err(ActError::Action(format!(
+                "process '{}' is already completed",
+                self.id
+            )));
+        }
         let task = self.task(&action.tid).ok_or(ActError::Action(format!(
             "cannot find task by '{}' tasks={:?}",
             action.tid,
